@@ -10,14 +10,20 @@
   theorems (C05, C01) carry the hypothesis `b.g.shutting = false`; `layerB_accounting_void_after_shutdown` and
   `layerB_negative_after_shutdown` are reachable states showing that they fail without it.
 
-  Multi-key reads (`Req.mget ks iter`: `multi_get` and the two iterators; positions `.mgetStore` / `.mgetPool`, `mgetNext`):
+  Multi-key reads (`Req.mget ks iter`: `multi_get` and the two iterators; positions `.mgetFlag` (every load of the
+  shutdown flag is an action of its own), `.mgetStore` / `.mgetPool`, `mgetNext`):
     * C02  `C02_layerB_mget_store`, `C02_layerB_mget_pool` (the two actions per key), `C02_layerB_mread_current` (one
            key, whatever happens between its two actions), `C02_layerB_mget_current` (the WHOLE call along any history
-           `RunH`: every value returned at position `j` was the value of an alive entry of `ks[j]` at that key's own
+           of any threads: every value at position j is the value of an alive entry of key j at the moment of ITS
            `store.get` action — `MgetHit`; invariant `MgetInv`), witness `C02_layerB_mget_current_witness`;
-    * C13  `refusal (.mget _ _) = .values []` (`C13_layerB_refuses`, `C13_layerB_mget_refused`),
-           `C13_layerB_mget_after_flag` (what `mgetNext` does once the flag is set: `multi_get` pads with `None`s, the
-           iterators stop), `C13_layerB_mget_store_after_flag`, `C13_layerB_mget_pool_after_flag`.
+    * C13  `C13_layerB_mget_start` (the first action looks at nothing), `C13_layerB_mget_flag_outer` /
+           `C13_layerB_mget_flag_inner` (what one load does: the load of `next()` / of `multi_get`'s entry ends the read,
+           the load inside `get` answers `None` for this key without a lookup), `C13_layerB_mget_refused` (a read issued
+           with the flag set: no values, two actions), `C13_layerB_mget_after_flag` (`multi_get` pads with `None`s, one
+           load per key; an iterator stops at its next load), `C13_layerB_mget_store_after_flag`,
+           `C13_layerB_mget_pool_after_flag`, and `C13_layerB_mget_around_shutdown` (the WHOLE call along any history:
+           every `None` is a counted miss of its own lookup or a `get` that found the flag set — no lookup, statistics
+           untouched —, and after such a `None` no value follows), witness `C13_layerB_mget_none_without_miss_witness`.
 -/
 import CachedProofs.LayerB.Inv
 
@@ -943,28 +949,59 @@ theorem C02_layerB_read_current {b0 b1 b2 b3 : BState} {i k : Nat} {o0 o1 o2 o3 
 
 /-! ### multi-key reads (`multi_get`, `multi_get_iterator`, `multi_get_map_iterator`)
 
-  Each key of a multi-key read goes through the same two actions as a `get`: `store.get` (position
-  `.mgetStore k ks acc iter`) and, on a hit, `pool.add` (position `.mgetPool k v ks acc iter`); `acc` holds the results
-  of the keys already done, `ks` the keys still to come.  Between the two actions — and between two keys — any other
-  thread may run. -/
+  Each key of a multi-key read goes through `get`: a load of the shutdown flag (position `.mgetFlag false (k :: ks) acc
+  iter`), `store.get` (position `.mgetStore k ks acc iter`) and, on a hit, `pool.add` (position `.mgetPool k v ks acc
+  iter`); the iterators load the flag once more per key BEFORE calling `get` (`.mgetFlag true …`: `next()`), `multi_get`
+  loads it once at its entry (`.mgetFlag true ks [] false`).  `acc` holds the results of the keys already done, `ks` the
+  keys still to come.  Between any two of these actions — and between two keys — any other thread may run. -/
 
 /-- moving on to the next key touches no shared state -/
 @[simp] theorem mgetNext_g (b : BState) (i : Nat) (ks : List Nat) (acc : List (Option Nat)) (iter : Bool) :
     (mgetNext b i ks acc iter).g = b.g := by
   unfold mgetNext
-  split
+  split <;> rfl
+
+/-- the first action of a multi-key read touches no shared state -/
+@[simp] theorem mgetStart_g (b : BState) (i : Nat) (ks : List Nat) (iter : Bool) :
+    (mgetStart b i ks iter).g = b.g := by
+  unfold mgetStart
+  split <;> rfl
+
+/-- a load of the flag changes no shared state (whatever it sees) -/
+@[simp] theorem mgetFlagAct_g (b : BState) (i : Nat) (outer : Bool) (ks : List Nat) (acc : List (Option Nat))
+    (iter : Bool) : (mgetFlagAct b i outer ks acc iter).g = b.g := by
+  rcases mgetFlagAct_spec b i outer ks acc iter with ⟨_, e⟩ | ⟨_, _, _, _, _, e⟩ | ⟨_, _, _, _, _, e⟩ |
+    ⟨_, _, _, _, _, e⟩ <;> rw [e]
   · rfl
-  · split <;> rfl
+  · rfl
+  · exact mgetNext_g _ _ _ _ _
+  · rfl
+
+/-- the action at a flag load of a multi-key read, as an equation -/
+theorem clientAct_mgetFlag {b b' : BState} {i : Nat} {outer : Bool} {ks : List Nat} {acc : List (Option Nat)}
+    {iter : Bool} {o o' : Oracle} (hpc : b.cl[i]? = some (.mgetFlag outer ks acc iter))
+    (h : clientAct b i o = .ok (b', o')) : b' = mgetFlagAct b i outer ks acc iter ∧ o' = o := by
+  unfold clientAct at h
+  simp only [hpc, Except.ok.injEq, Prod.mk.injEq] at h
+  exact ⟨h.1.symm, h.2.symm⟩
+
+/-- the first action of a multi-key read, as an equation (whatever the flag is) -/
+theorem clientAct_mgetStart {b b' : BState} {i : Nat} {ks : List Nat} {iter : Bool} {o o' : Oracle}
+    (hpc : b.cl[i]? = some (.start (.mget ks iter))) (h : clientAct b i o = .ok (b', o')) :
+    b' = mgetStart b i ks iter ∧ o' = o := by
+  unfold clientAct at h
+  simp only [hpc] at h
+  split at h <;> simp only [Except.ok.injEq, Prod.mk.injEq] at h <;> exact ⟨h.1.symm, h.2.symm⟩
 
 /-- no key left: the call returns the results gathered -/
 theorem mgetNext_nil (b : BState) (i : Nat) (acc : List (Option Nat)) (iter : Bool) :
     mgetNext b i [] acc iter = finishCall b i (.values acc) := rfl
 
-/-- a key left and the flag not set: on to that key's `store.get`, the results so far carried along unchanged -/
-theorem mgetNext_cons {b : BState} (i k : Nat) (rest : List Nat) (acc : List (Option Nat)) (iter : Bool)
-    (hs : b.g.shutting = false) :
-    mgetNext b i (k :: rest) acc iter = setClient b i (.mgetStore k rest acc iter) := by
-  simp [mgetNext, hs]
+/-- a key left: on to the next load of the flag — `next()`'s own load for the iterators, the load inside `get` for
+    `multi_get` —, the results so far carried along unchanged.  (STATEMENT CHANGED with the model: `mgetNext` used to
+    contain the flag check and, with the flag clear, went straight to `.mgetStore`.) -/
+theorem mgetNext_cons (b : BState) (i k : Nat) (rest : List Nat) (acc : List (Option Nat)) (iter : Bool) :
+    mgetNext b i (k :: rest) acc iter = setClient b i (.mgetFlag iter (k :: rest) acc iter) := rfl
 
 /-- The `store.get` action for key `k` of a multi-key read: a hit moves on to `pool.add` carrying the value of the
     CURRENT, alive entry of `k` (results so far and keys to come unchanged); a miss records `none` for `k` and moves on
@@ -1037,7 +1074,7 @@ theorem C02_layerB_mread_current {b0 b1 b2 b3 : BState} {i k : Nat} {ks : List N
   · exfalso
     obtain ⟨v, hv⟩ := hhit
     rcases mgetNext_spec { b0 with g := { b0.g with stats := { b0.g.stats with misses := b0.g.stats.misses + 1 } } } i ks
-      (acc ++ [none]) iter with ⟨out, e⟩ | ⟨k', rest, _, _, e⟩
+      (acc ++ [none]) iter with ⟨out, e⟩ | ⟨k', rest, _, e⟩
     · rw [e] at hv
       simp only [finishCall, List.getElem?_set_self hlt] at hv
       cases hv
@@ -1128,15 +1165,65 @@ def MgetHit (h : List (BState × Act)) (i j k v : Nat) : Prop :=
   ∃ p ∈ h, p.2 = .client i ∧ ∃ ks acc iter, p.1.cl[i]? = some (.mgetStore k ks acc iter) ∧ acc.length = j ∧
     ∃ e, p.1.g.store.get? k = some e ∧ e.alive p.1.g.now = true ∧ e.value = v
 
+/-- in the history `h` client `i` did the `store.get` action of the `j`-th key `k` of its multi-key read, and at that
+    instant the store held no alive entry for `k`: a miss, counted by that very action (`C02_layerB_mget_store`:
+    `misses + 1`) -/
+def MgetMiss (h : List (BState × Act)) (i j k : Nat) : Prop :=
+  ∃ p ∈ h, p.2 = .client i ∧ ∃ ks acc iter, p.1.cl[i]? = some (.mgetStore k ks acc iter) ∧ acc.length = j ∧
+    ∀ e, p.1.g.store.get? k = some e → e.alive p.1.g.now = false
+
+/-- in the history `h` client `i` did the flag load INSIDE the `get` for the `j`-th key `k` of its multi-key read and
+    found the flag set: that `get` answered `None` without a lookup, and the action changed nothing shared — no hit, no
+    miss, no access record (`C13_layerB_mget_flag_inner`) -/
+def MgetRefused (h : List (BState × Act)) (i j k : Nat) : Prop :=
+  ∃ p ∈ h, p.2 = .client i ∧ ∃ ks acc iter, p.1.cl[i]? = some (.mgetFlag false (k :: ks) acc iter) ∧ acc.length = j ∧
+    p.1.g.shutting = true
+
 /-- every value among the results `acc` is justified by a `store.get` hit in the history, for the key at the same
     position -/
 def AccOk (h : List (BState × Act)) (i : Nat) (ks : List Nat) (acc : List (Option Nat)) : Prop :=
   ∀ j v, acc[j]? = some (some v) → ∃ k, ks[j]? = some k ∧ MgetHit h i j k v
 
+/-- every `None` among the results `acc` is a counted miss of that key's own lookup, or the answer of a `get` that found
+    the flag set (no lookup) -/
+def AccNone (h : List (BState × Act)) (i : Nat) (ks : List Nat) (acc : List (Option Nat)) : Prop :=
+  ∀ j, acc[j]? = some none → ∃ k, ks[j]? = some k ∧ (MgetMiss h i j k ∨ MgetRefused h i j k)
+
+/-- from the first key whose `get` found the flag set on, no result is a value -/
+def AccCut (h : List (BState × Act)) (i : Nat) (acc : List (Option Nat)) : Prop :=
+  ∀ j k, MgetRefused h i j k → ∀ j' v, j ≤ j' → acc[j']? ≠ some (some v)
+
+/-- no `get` of this read has found the flag set so far -/
+def NoRef (h : List (BState × Act)) (i : Nat) : Prop := ∀ j k, ¬ MgetRefused h i j k
+
+/-- the three together -/
+def AccAll (h : List (BState × Act)) (i : Nat) (ks : List Nat) (acc : List (Option Nat)) : Prop :=
+  AccOk h i ks acc ∧ AccNone h i ks acc ∧ AccCut h i acc
+
 theorem MgetHit.mono {h : List (BState × Act)} {i j k v : Nat} (p : BState × Act) (hh : MgetHit h i j k v) :
     MgetHit (p :: h) i j k v := by
   obtain ⟨q, hq, rest⟩ := hh
   exact ⟨q, List.mem_cons_of_mem _ hq, rest⟩
+
+theorem MgetMiss.mono {h : List (BState × Act)} {i j k : Nat} (p : BState × Act) (hh : MgetMiss h i j k) :
+    MgetMiss (p :: h) i j k := by
+  obtain ⟨q, hq, rest⟩ := hh
+  exact ⟨q, List.mem_cons_of_mem _ hq, rest⟩
+
+theorem MgetRefused.mono {h : List (BState × Act)} {i j k : Nat} (p : BState × Act) (hh : MgetRefused h i j k) :
+    MgetRefused (p :: h) i j k := by
+  obtain ⟨q, hq, rest⟩ := hh
+  exact ⟨q, List.mem_cons_of_mem _ hq, rest⟩
+
+/-- a step that is not the flag load inside a `get` with the flag set adds no refusal to the history -/
+theorem MgetRefused.of_cons {h : List (BState × Act)} {i j k : Nat} {b : BState} {a : Act}
+    (hnot : a = .client i → ∀ ks acc iter, b.cl[i]? = some (.mgetFlag false (k :: ks) acc iter) → acc.length = j →
+      b.g.shutting = true → False)
+    (hh : MgetRefused ((b, a) :: h) i j k) : MgetRefused h i j k := by
+  obtain ⟨q, hq, ha, ks, acc, iter, hpc, hl, hs⟩ := hh
+  rcases List.mem_cons.mp hq with rfl | hq
+  · exact (hnot ha ks acc iter hpc hl hs).elim
+  · exact ⟨q, hq, ha, ks, acc, iter, hpc, hl, hs⟩
 
 theorem AccOk.mono {h : List (BState × Act)} {i : Nat} {ks : List Nat} {acc : List (Option Nat)} (p : BState × Act)
     (hh : AccOk h i ks acc) : AccOk (p :: h) i ks acc := by
@@ -1144,8 +1231,17 @@ theorem AccOk.mono {h : List (BState × Act)} {i : Nat} {ks : List Nat} {acc : L
   obtain ⟨k, hk, hm⟩ := hh j v hj
   exact ⟨k, hk, hm.mono p⟩
 
+theorem AccNone.mono {h : List (BState × Act)} {i : Nat} {ks : List Nat} {acc : List (Option Nat)} (p : BState × Act)
+    (hh : AccNone h i ks acc) : AccNone (p :: h) i ks acc := by
+  intro j hj
+  obtain ⟨k, hk, hm⟩ := hh j hj
+  exact ⟨k, hk, hm.imp (·.mono p) (·.mono p)⟩
+
 theorem AccOk.nil (h : List (BState × Act)) (i : Nat) (ks : List Nat) : AccOk h i ks [] := by
   intro j v hj; simp at hj
+
+theorem AccAll.nil (h : List (BState × Act)) (i : Nat) (ks : List Nat) : AccAll h i ks [] :=
+  ⟨AccOk.nil h i ks, fun j hj => by simp at hj, fun j k _ j' v _ hj => by simp at hj⟩
 
 theorem AccOk.append_nones {h : List (BState × Act)} {i : Nat} {ks : List Nat} {acc : List (Option Nat)}
     (hh : AccOk h i ks acc) (l : List Nat) : AccOk h i ks (acc ++ l.map (fun _ => none)) := by
@@ -1161,31 +1257,87 @@ theorem AccOk.snoc_none {h : List (BState × Act)} {i : Nat} {ks : List Nat} {ac
   have := hh.append_nones [0]
   simpa using this
 
+/-- as long as no `get` of the read has found the flag set, nothing is cut off -/
+theorem AccCut.of_noRef {h : List (BState × Act)} {i : Nat} (hn : NoRef h i) (acc : List (Option Nat)) :
+    AccCut h i acc := fun j k hr => (hn j k hr).elim
+
+/-- a step of the history that adds no refusal keeps all three (the results unchanged) -/
+theorem AccAll.mono {h : List (BState × Act)} {i : Nat} {ks : List Nat} {acc : List (Option Nat)} {b : BState} {a : Act}
+    (hnot : a = .client i → ∀ k ks' acc' iter, b.cl[i]? = some (.mgetFlag false (k :: ks') acc' iter) →
+      b.g.shutting = true → False)
+    (hh : AccAll h i ks acc) : AccAll ((b, a) :: h) i ks acc :=
+  ⟨hh.1.mono _, hh.2.1.mono _, fun j k hr j' v hle =>
+    hh.2.2 j k (MgetRefused.of_cons (fun ha ks' acc' it hpc _ hs => hnot ha k ks' acc' it hpc hs) hr) j' v hle⟩
+
+theorem NoRef.mono {h : List (BState × Act)} {i : Nat} {b : BState} {a : Act}
+    (hnot : a = .client i → ∀ k ks' acc' iter, b.cl[i]? = some (.mgetFlag false (k :: ks') acc' iter) →
+      b.g.shutting = true → False)
+    (hh : NoRef h i) : NoRef ((b, a) :: h) i :=
+  fun j k hr => hh j k (MgetRefused.of_cons (fun ha ks' acc' it hpc _ hs => hnot ha k ks' acc' it hpc hs) hr)
+
+/-- appending a `None` that is justified (a counted miss, or a `get` that found the flag set) at the next position -/
+theorem AccAll.snoc_none {h : List (BState × Act)} {i : Nat} {ks : List Nat} {acc : List (Option Nat)} {k : Nat}
+    (hh : AccOk h i ks acc) (hn : AccNone h i ks acc) (hk : ks[acc.length]? = some k)
+    (hj : MgetMiss h i acc.length k ∨ MgetRefused h i acc.length k)
+    (hc : ∀ j k', MgetRefused h i j k' → ∀ j' v, j ≤ j' → j' < acc.length → acc[j']? ≠ some (some v)) :
+    AccAll h i ks (acc ++ [none]) := by
+  refine ⟨hh.snoc_none, ?_, ?_⟩
+  · intro j hjn
+    by_cases hlt : j < acc.length
+    · rw [List.getElem?_append_left hlt] at hjn
+      exact hn j hjn
+    · have hje : j = acc.length := by
+        rcases Nat.lt_or_ge acc.length j with h' | h'
+        · rw [List.getElem?_eq_none (by simp; omega)] at hjn; cases hjn
+        · omega
+      subst hje
+      exact ⟨k, hk, hj⟩
+  · intro j k' hr j' v hle hv
+    by_cases hlt : j' < acc.length
+    · rw [List.getElem?_append_left hlt] at hv
+      exact hc j k' hr j' v hle hlt hv
+    · rw [List.getElem?_append_right (by omega)] at hv
+      cases hx : ([none] : List (Option Nat))[j' - acc.length]? with
+      | none => rw [hx] at hv; cases hv
+      | some y =>
+        rw [hx] at hv
+        have : y = none := by
+          have hm := List.mem_of_getElem? hx
+          simpa using hm
+        subst this; cases hv
+
 /-- the position invariant of one multi-key read `mget ks iter` of client `i` (`r0`: the results client `i` had
     recorded before the call) -/
 def MgetInv (h : List (BState × Act)) (i : Nat) (ks : List Nat) (iter : Bool) (r0 : List Out)
     (pc : Option CPc) (ri : Option (List Out)) : Prop :=
   match pc with
   | some (.start (.mget ks' it)) => ks' = ks ∧ it = iter ∧ ri = some r0
+  | some (.mgetFlag outer rest acc it) =>
+    it = iter ∧ ri = some r0 ∧ ks.drop acc.length = rest ∧ acc.length ≤ ks.length ∧
+      (iter = false → outer = true → acc = []) ∧ AccAll h i ks acc
   | some (.mgetStore k rest acc it) =>
-    it = iter ∧ ri = some r0 ∧ ks.drop acc.length = k :: rest ∧ AccOk h i ks acc
+    it = iter ∧ ri = some r0 ∧ ks.drop acc.length = k :: rest ∧ AccAll h i ks acc ∧ NoRef h i
   | some (.mgetPool k v rest acc it) =>
-    it = iter ∧ ri = some r0 ∧ ks.drop acc.length = k :: rest ∧ AccOk h i ks (acc ++ [some v])
+    it = iter ∧ ri = some r0 ∧ ks.drop acc.length = k :: rest ∧ AccAll h i ks (acc ++ [some v]) ∧ NoRef h i
   | some .idle =>
     ∃ out, ri = some (.values out :: r0) ∧ out.length ≤ ks.length ∧
-      (iter = false → out = [] ∨ out.length = ks.length) ∧ AccOk h i ks out
+      (iter = false → out = [] ∨ out.length = ks.length) ∧ AccAll h i ks out
   | _ => False
 
+/-- a step of another thread keeps the invariant (it adds neither a result nor a refusal) -/
 theorem MgetInv.mono {h : List (BState × Act)} {i : Nat} {ks : List Nat} {iter : Bool} {r0 : List Out}
-    {pc : Option CPc} {ri : Option (List Out)} (p : BState × Act) (hh : MgetInv h i ks iter r0 pc ri) :
-    MgetInv (p :: h) i ks iter r0 pc ri := by
+    {pc : Option CPc} {ri : Option (List Out)} {b : BState} {a : Act} (hne : a ≠ .client i)
+    (hh : MgetInv h i ks iter r0 pc ri) : MgetInv ((b, a) :: h) i ks iter r0 pc ri := by
+  have hnot : a = .client i → ∀ k ks' acc' iter, b.cl[i]? = some (.mgetFlag false (k :: ks') acc' iter) →
+      b.g.shutting = true → False := fun e => (hne e).elim
   unfold MgetInv at hh ⊢
   split at hh
   · exact hh
-  · exact ⟨hh.1, hh.2.1, hh.2.2.1, hh.2.2.2.mono p⟩
-  · exact ⟨hh.1, hh.2.1, hh.2.2.1, hh.2.2.2.mono p⟩
-  · obtain ⟨out, a, b, c, d⟩ := hh
-    exact ⟨out, a, b, c, d.mono p⟩
+  · exact ⟨hh.1, hh.2.1, hh.2.2.1, hh.2.2.2.1, hh.2.2.2.2.1, hh.2.2.2.2.2.mono hnot⟩
+  · exact ⟨hh.1, hh.2.1, hh.2.2.1, hh.2.2.2.1.mono hnot, hh.2.2.2.2.mono hnot⟩
+  · exact ⟨hh.1, hh.2.1, hh.2.2.1, hh.2.2.2.1.mono hnot, hh.2.2.2.2.mono hnot⟩
+  · obtain ⟨out, a1, b1, c1, d1⟩ := hh
+    exact ⟨out, a1, b1, c1, d1.mono hnot⟩
   · exact hh.elim
 
 theorem drop_succ_of_drop_cons {ks : List Nat} {n k : Nat} {rest : List Nat} (h : ks.drop n = k :: rest) :
@@ -1200,50 +1352,58 @@ theorem drop_succ_of_drop_cons {ks : List Nat} {n k : Nat} {rest : List Nat} (h 
     rw [h] at this
     simpa using this.symm
 
-/-- `mgetNext` keeps the position invariant: given results `acc` justified by the history and `rest` the keys after
-    them, the read either returns (results justified; `multi_get` pads with `none`s up to one answer per key) or
-    stands at the lookup of the next key -/
-theorem mgetInv_mgetNext {h : List (BState × Act)} {i : Nat} {ks : List Nat} {iter : Bool} {r0 : List Out}
-    (bX : BState) (rest : List Nat) (acc : List (Option Nat)) (hi : i < bX.cl.length) (hr : bX.res[i]? = some r0)
-    (hd : ks.drop acc.length = rest) (hle : acc.length ≤ ks.length) (hok : AccOk h i ks acc) :
-    MgetInv h i ks iter r0 ((mgetNext bX i rest acc iter).cl[i]?) ((mgetNext bX i rest acc iter).res[i]?) := by
+/-- the call returns `out`: the invariant at `.idle` -/
+theorem mgetInv_finish {h : List (BState × Act)} {i : Nat} {ks : List Nat} {iter : Bool} {r0 : List Out}
+    (bX : BState) (out : List (Option Nat)) (hi : i < bX.cl.length) (hr : bX.res[i]? = some r0)
+    (h1 : out.length ≤ ks.length) (h2 : iter = false → out = [] ∨ out.length = ks.length) (h3 : AccAll h i ks out) :
+    MgetInv h i ks iter r0 ((finishCall bX i (.values out)).cl[i]?) ((finishCall bX i (.values out)).res[i]?) := by
   have hri : i < bX.res.length := by
     rcases Nat.lt_or_ge i bX.res.length with h' | h'
     · exact h'
     · rw [List.getElem?_eq_none h'] at hr; cases hr
   have hgetD : bX.res.getD i [] = r0 := by
     rw [List.getD_eq_getElem?_getD, hr]; rfl
+  simp only [finishCall, List.getElem?_set_self hi, List.getElem?_set_self hri, hgetD]
+  exact ⟨out, rfl, h1, h2, h3⟩
+
+/-- `mgetNext` keeps the position invariant: given results `acc` justified by the history and `rest` the keys after
+    them, the read either returns (one answer per key) or stands before the next load of the flag -/
+theorem mgetInv_mgetNext {h : List (BState × Act)} {i : Nat} {ks : List Nat} {iter : Bool} {r0 : List Out}
+    (bX : BState) (rest : List Nat) (acc : List (Option Nat)) (hi : i < bX.cl.length) (hr : bX.res[i]? = some r0)
+    (hd : ks.drop acc.length = rest) (hle : acc.length ≤ ks.length) (hne : acc ≠ []) (hok : AccAll h i ks acc) :
+    MgetInv h i ks iter r0 ((mgetNext bX i rest acc iter).cl[i]?) ((mgetNext bX i rest acc iter).res[i]?) := by
   have hlen : rest.length + acc.length = ks.length := by
     have := congrArg List.length hd
     rw [List.length_drop] at this
     omega
-  have fin : ∀ out, out.length ≤ ks.length → (iter = false → out = [] ∨ out.length = ks.length) → AccOk h i ks out →
-      MgetInv h i ks iter r0 ((finishCall bX i (.values out)).cl[i]?) ((finishCall bX i (.values out)).res[i]?) := by
-    intro out h1 h2 h3
-    simp only [finishCall, List.getElem?_set_self hi, List.getElem?_set_self hri, hgetD]
-    exact ⟨out, rfl, h1, h2, h3⟩
-  unfold mgetNext
   cases rest with
   | nil =>
     simp only [List.length_nil] at hlen
-    exact fin acc (by omega) (fun _ => Or.inr (by omega)) hok
+    rw [mgetNext_nil]
+    exact mgetInv_finish bX acc hi hr (by omega) (fun _ => Or.inr (by omega)) hok
   | cons k rest' =>
-    simp only [List.length_cons] at hlen
-    simp only []
-    split
-    · cases iter with
-      | true => exact fin acc (by omega) (fun e => by cases e) hok
-      | false =>
-        refine fin _ ?_ (fun _ => Or.inr ?_) (hok.append_nones (k :: rest'))
-        · simp only [Bool.false_eq_true, if_false, List.length_append, List.length_map, List.length_cons]; omega
-        · simp only [Bool.false_eq_true, if_false, List.length_append, List.length_map, List.length_cons]; omega
-    · simp only [setClient, List.getElem?_set_self hi, hr]
-      exact ⟨rfl, rfl, hd, hok⟩
+    rw [mgetNext_cons]
+    simp only [setClient, List.getElem?_set_self hi, hr]
+    refine ⟨rfl, rfl, hd, hle, ?_, hok⟩
+    intro e1 e2
+    rw [e1] at e2; cases e2
+
+/-- the flag is monotone along a history: a state of the history in which it was set is followed only by such states -/
+theorem runH_shutting_mono {b0 b : BState} {h : List (BState × Act)} (hrun : RunH b0 h b) :
+    ∀ p ∈ h, p.1.g.shutting = true → b.g.shutting = true := by
+  induction hrun with
+  | nil => intro p hp; cases hp
+  | step hprev hs ih =>
+    intro p hp hsh
+    rcases List.mem_cons.mp hp with rfl | hp
+    · exact stepB_shutting_mono hs hsh
+    · exact stepB_shutting_mono hs (ih p hp hsh)
 
 /-- one step of any thread (other than a new `issue` by client `i`) keeps the position invariant of client `i`'s
     multi-key read, with the step added to the history -/
 theorem mgetInv_step {h : List (BState × Act)} {i : Nat} {ks : List Nat} {iter : Bool} {r0 : List Out}
     {b b' : BState} {a : Act} {o o' : Oracle} (hinv : MgetInv h i ks iter r0 b.cl[i]? b.res[i]?)
+    (hmono : ∀ p ∈ h, p.1.g.shutting = true → b.g.shutting = true)
     (hs : stepB b a o = .ok (b', o')) (hno : ∀ r, a ≠ .issue i r) :
     MgetInv ((b, a) :: h) i ks iter r0 b'.cl[i]? b'.res[i]? := by
   by_cases ha : a = .client i
@@ -1263,49 +1423,126 @@ theorem mgetInv_step {h : List (BState × Act)} {i : Nat} {ks : List Nat} {iter 
         cases r with
         | mget ks' it =>
           obtain ⟨rfl, rfl, hr⟩ := hinv
-          simp only [clientAct, hpc] at hs
-          split at hs
-          · simp only [Except.ok.injEq, Prod.mk.injEq] at hs; obtain ⟨rfl, rfl⟩ := hs
-            have hri : i < b.res.length := by
-              rcases Nat.lt_or_ge i b.res.length with h' | h'
-              · exact h'
-              · rw [List.getElem?_eq_none h'] at hr; cases hr
-            have hgetD : b.res.getD i [] = r0 := by
-              rw [List.getD_eq_getElem?_getD, hr]; rfl
-            simp only [finishCall, List.getElem?_set_self hi, List.getElem?_set_self hri, hgetD]
-            exact ⟨[], rfl, Nat.zero_le _, fun _ => Or.inl rfl, AccOk.nil _ _ _⟩
-          · simp only [Except.ok.injEq, Prod.mk.injEq] at hs; obtain ⟨rfl, rfl⟩ := hs
-            exact mgetInv_mgetNext b ks' [] hi hr rfl (Nat.zero_le _) (AccOk.nil _ _ _)
+          have hb' : b' = mgetStart b i ks' it := by
+            simp only [clientAct, hpc] at hs
+            split at hs <;> simp only [Except.ok.injEq, Prod.mk.injEq] at hs <;> exact hs.1.symm
+          subst hb'
+          rcases mgetStart_spec b i ks' it with ⟨_, rfl, e⟩ | ⟨_, e⟩ <;> rw [e]
+          · exact mgetInv_finish b [] hi hr (Nat.zero_le _) (fun _ => Or.inl rfl) (AccAll.nil _ _ _)
+          · simp only [setClient, List.getElem?_set_self hi, hr]
+            exact ⟨rfl, rfl, rfl, Nat.zero_le _, fun _ _ => rfl, AccAll.nil _ _ _⟩
         | _ => exact hinv.elim
+      | mgetFlag outer rest acc it =>
+        obtain ⟨rfl, hr, hd, hle, hout, hok⟩ := hinv
+        have hb' : b' = mgetFlagAct b i outer rest acc it := by
+          simp only [clientAct, hpc, Except.ok.injEq, Prod.mk.injEq] at hs
+          exact hs.1.symm
+        subst hb'
+        rcases mgetFlagAct_spec b i outer rest acc it with ⟨hc, e⟩ | ⟨k, rest', rfl, rfl, hsh, e⟩ |
+          ⟨k, rest', rfl, rfl, hsh, e⟩ | ⟨k, rest', rfl, rfl, hsh, e⟩ <;> rw [e]
+        · -- the read ends here: no key at all, or the outer load found the flag set
+          have hnot : Act.client i = .client i → ∀ k ks' acc' iter,
+              b.cl[i]? = some (.mgetFlag false (k :: ks') acc' iter) → b.g.shutting = true → False := by
+            intro _ k ks' acc' iter' hpc' hsh'
+            rw [hpc] at hpc'
+            cases hpc'
+            rcases hc with hc | ⟨hc, _⟩ <;> cases hc
+          refine mgetInv_finish b acc hi hr hle ?_ (hok.mono hnot)
+          intro hit
+          rcases hc with rfl | ⟨rfl, _⟩
+          · right
+            have := congrArg List.length hd
+            rw [List.length_drop] at this
+            simp only [List.length_nil] at this
+            omega
+          · exact Or.inl (hout hit rfl)
+        · -- outer load, flag clear: on to the load inside `get`
+          have hnot : Act.client i = .client i → ∀ k ks' acc' iter,
+              b.cl[i]? = some (.mgetFlag false (k :: ks') acc' iter) → b.g.shutting = true → False := by
+            intro _ k' ks' acc' iter' hpc' _
+            rw [hpc] at hpc'
+            cases hpc'
+          simp only [setClient, List.getElem?_set_self hi, hr]
+          exact ⟨rfl, rfl, hd, hle, (fun _ e2 => by cases e2), hok.mono hnot⟩
+        · -- the load inside `get` finds the flag set: `None` for this key, no lookup
+          obtain ⟨hd1, hk, hlt⟩ := drop_succ_of_drop_cons hd
+          have href : MgetRefused ((b, .client i) :: h) i acc.length k :=
+            ⟨(b, .client i), List.mem_cons_self, rfl, rest', acc, it, hpc, rfl, hsh⟩
+          have hall : AccAll ((b, .client i) :: h) i ks (acc ++ [none]) := by
+            refine AccAll.snoc_none (hok.1.mono _) (hok.2.1.mono _) hk (Or.inr href) ?_
+            intro j k' hr' j' v hjj hj'
+            have hold : MgetRefused h i j k' := by
+              refine MgetRefused.of_cons ?_ hr'
+              intro _ ks'' acc'' it'' hpc' hl' _
+              rw [hpc] at hpc'
+              cases hpc'
+              omega
+            exact hok.2.2 j k' hold j' v hjj
+          exact mgetInv_mgetNext _ rest' (acc ++ [none]) hi hr (by simpa using hd1) (by simp; omega) (by simp) hall
+        · -- the load inside `get`, flag clear: on to the lookup; nothing has been refused so far
+          have hnot : Act.client i = .client i → ∀ k ks' acc' iter,
+              b.cl[i]? = some (.mgetFlag false (k :: ks') acc' iter) → b.g.shutting = true → False := by
+            intro _ _ _ _ _ _ hsh'
+            rw [hsh] at hsh'; cases hsh'
+          have hnr : NoRef h i := by
+            intro j k' ⟨p, hp, _, _, _, _, _, _, hps⟩
+            have := hmono p hp hps
+            rw [hsh] at this; cases this
+          simp only [setClient, List.getElem?_set_self hi, hr]
+          exact ⟨rfl, rfl, hd, hok.mono hnot, hnr.mono hnot⟩
       | mgetStore k rest acc it =>
-        obtain ⟨rfl, hr, hd, hok⟩ := hinv
+        obtain ⟨rfl, hr, hd, hok, hnr⟩ := hinv
         obtain ⟨hd1, hk, hlt⟩ := drop_succ_of_drop_cons hd
-        rcases (C02_layerB_mget_store hpc hs).1 with ⟨e, he, hal, hcl, hres⟩ | ⟨_, rfl⟩
+        have hnot : Act.client i = .client i → ∀ k ks' acc' iter,
+            b.cl[i]? = some (.mgetFlag false (k :: ks') acc' iter) → b.g.shutting = true → False := by
+          intro _ _ _ _ _ hpc' _
+          rw [hpc] at hpc'; cases hpc'
+        have hnr' := hnr.mono hnot
+        rcases (C02_layerB_mget_store hpc hs).1 with ⟨e, he, hal, hcl, hres⟩ | ⟨hmiss, rfl⟩
         · rw [hcl, hres, List.getElem?_set_self hi, hr]
-          refine ⟨rfl, rfl, hd, ?_⟩
-          intro j v hj
-          by_cases hjl : j < acc.length
-          · rw [List.getElem?_append_left hjl] at hj
-            exact (hok.mono _) j v hj
-          · have hje : j = acc.length := by
-              rcases Nat.lt_or_ge acc.length j with h' | h'
-              · rw [List.getElem?_eq_none (by simp; omega)] at hj; cases hj
-              · omega
-            subst hje
-            simp only [List.getElem?_append_right (Nat.le_refl _), Nat.sub_self, List.getElem?_cons_zero,
-              Option.some.injEq] at hj
-            subst hj
-            exact ⟨k, hk, (b, .client i), List.mem_cons_self, rfl, rest, acc, it, hpc, rfl, e, he, hal, rfl⟩
-        · exact mgetInv_mgetNext _ rest (acc ++ [none]) hi hr (by simpa using hd1) (by simp; omega)
-            ((hok.mono _).snoc_none)
+          refine ⟨rfl, rfl, hd, ⟨?_, ?_, AccCut.of_noRef hnr' _⟩, hnr'⟩
+          · intro j v hj
+            by_cases hjl : j < acc.length
+            · rw [List.getElem?_append_left hjl] at hj
+              exact (hok.1.mono _) j v hj
+            · have hje : j = acc.length := by
+                rcases Nat.lt_or_ge acc.length j with h' | h'
+                · rw [List.getElem?_eq_none (by simp; omega)] at hj; cases hj
+                · omega
+              subst hje
+              simp only [List.getElem?_append_right (Nat.le_refl _), Nat.sub_self, List.getElem?_cons_zero,
+                Option.some.injEq] at hj
+              subst hj
+              exact ⟨k, hk, (b, .client i), List.mem_cons_self, rfl, rest, acc, it, hpc, rfl, e, he, hal, rfl⟩
+          · intro j hj
+            by_cases hjl : j < acc.length
+            · rw [List.getElem?_append_left hjl] at hj
+              exact (hok.2.1.mono _) j hj
+            · have hje : j = acc.length := by
+                rcases Nat.lt_or_ge acc.length j with h' | h'
+                · rw [List.getElem?_eq_none (by simp; omega)] at hj; cases hj
+                · omega
+              subst hje
+              simp at hj
+        · have hm : MgetMiss ((b, .client i) :: h) i acc.length k :=
+            ⟨(b, .client i), List.mem_cons_self, rfl, rest, acc, it, hpc, rfl, hmiss⟩
+          have hall : AccAll ((b, .client i) :: h) i ks (acc ++ [none]) :=
+            AccAll.snoc_none (hok.1.mono _) (hok.2.1.mono _) hk (Or.inl hm)
+              (fun j k' hr' => (hnr' j k' hr').elim)
+          exact mgetInv_mgetNext _ rest (acc ++ [none]) hi hr (by simpa using hd1) (by simp; omega) (by simp) hall
       | mgetPool k v rest acc it =>
-        obtain ⟨rfl, hr, hd, hok⟩ := hinv
+        obtain ⟨rfl, hr, hd, hok, hnr⟩ := hinv
         obtain ⟨hd1, hk, hlt⟩ := drop_succ_of_drop_cons hd
+        have hnot : Act.client i = .client i → ∀ k ks' acc' iter,
+            b.cl[i]? = some (.mgetFlag false (k :: ks') acc' iter) → b.g.shutting = true → False := by
+          intro _ _ _ _ _ hpc' _
+          rw [hpc] at hpc'; cases hpc'
         obtain ⟨g1, hp, rfl⟩ := C02_layerB_mget_pool hpc hs
-        exact mgetInv_mgetNext _ rest (acc ++ [some v]) hi hr (by simpa using hd1) (by simp; omega) (hok.mono _)
+        exact mgetInv_mgetNext _ rest (acc ++ [some v]) hi hr (by simpa using hd1) (by simp; omega) (by simp)
+          (hok.mono hnot)
       | _ => exact hinv.elim
   · rw [other_threads_keep_pc hs ha hno, other_threads_keep_res hs ha]
-    exact hinv.mono _
+    exact hinv.mono ha
 
 /-- the position invariant holds along every run from the issue of the call on -/
 theorem mgetInv_run {b0 b : BState} {h : List (BState × Act)} {i : Nat} {ks : List Nat} {iter : Bool}
@@ -1318,17 +1555,19 @@ theorem mgetInv_run {b0 b : BState} {h : List (BState × Act)} {i : Nat} {ks : L
     refine ⟨rfl, rfl, ?_⟩
     rw [List.getD_eq_getElem?_getD, List.getElem?_eq_getElem hres]; rfl
   | step hprev hs ih =>
-    exact mgetInv_step (ih (fun p hp => hno p (List.mem_cons_of_mem _ hp)))
+    exact mgetInv_step (ih (fun p hp => hno p (List.mem_cons_of_mem _ hp))) (runH_shutting_mono hprev)
       hs (fun r => hno _ List.mem_cons_self r)
 
 /-- **C02 for a whole multi-key read, along every interleaving.**  Client `i` has issued `mget ks iter`
     (`multi_get`: `iter = false`; the iterators: `iter = true`) in `b0`; `h` is ANY history of actions of any threads
     from there (client `i` issuing nothing new) to a state `b` in which client `i` is idle again.  Then the call has
-    recorded `.values out` where: `out` has at most one entry per key (for `multi_get`: exactly one, unless the call
-    was refused outright because the flag was already set at its first action), and EVERY value `out[j] = some v` is
+    recorded `.values out` where: `out` has at most one entry per key (for `multi_get`: exactly one, unless the load at
+    its entry found the flag set), and EVERY value `out[j] = some v` is
     the value of an entry that the store held for the `j`-th key `ks[j]` — and that was alive — at the instant of
     that key's own `store.get` action of this call (`MgetHit`): never another key's value, never a value from another
-    instant than that key's lookup, whatever the other threads did before, between and after. -/
+    instant than that key's lookup, whatever the other threads did before, between and after.
+    (Statement unchanged by the model change — every flag load its own action —; what the `None`s are is
+    `C13_layerB_mget_around_shutdown`.) -/
 theorem C02_layerB_mget_current {b0 b : BState} {h : List (BState × Act)} {i : Nat} {ks : List Nat} {iter : Bool}
     (hrun : RunH b0 h b) (hstart : b0.cl[i]? = some (.start (.mget ks iter))) (hres : i < b0.res.length)
     (hno : ∀ p ∈ h, ∀ r, p.2 ≠ .issue i r) (hidle : b.cl[i]? = some .idle) :
@@ -1337,7 +1576,33 @@ theorem C02_layerB_mget_current {b0 b : BState} {h : List (BState × Act)} {i : 
       ∀ j v, out[j]? = some (some v) → ∃ k, ks[j]? = some k ∧ MgetHit h i j k v := by
   have key := mgetInv_run hrun hstart hres hno
   rw [hidle] at key
-  exact key
+  obtain ⟨out, h1, h2, h3, h4⟩ := key
+  exact ⟨out, h1, h2, h3, h4.1⟩
+
+/-- **What a multi-key read can return around `shutdown()`, along every interleaving** (new with the model change that
+    makes every load of the shutdown flag an action of its own).  Client `i` has issued `mget ks iter` in `b0`; `h` is ANY
+    history of actions of any threads from there (client `i` issuing nothing new) to a state `b` in which client `i` is
+    idle again; the call has recorded `.values out`.  Then
+    * every `None` in `out`, at position `j`, is EITHER a miss of the `j`-th key's own `store.get` action of this call —
+      the store held no alive entry for `ks[j]` at that instant, and that action counted it (`MgetMiss`;
+      `C02_layerB_mget_store`: `misses + 1`) — OR the answer of the `get` for `ks[j]` whose load of the flag found it set
+      (`MgetRefused`): no lookup was done and that action changed nothing shared, so neither a miss nor a hit nor an
+      access record stands for this `None` (`C13_layerB_mget_flag_inner`);
+    * once a `get` of the read has found the flag set — at position `j` — no later result (position `≥ j`) is a value.
+      (The other load, the one of `next()` / of `multi_get`'s entry, ends the read on the spot when it finds the flag
+      set: `C13_layerB_mget_flag_outer`; the flag is never reset: `C13_layerB_flag_permanent`.)
+    With `C02_layerB_mget_current` (the values, the length): a `multi_get` that got past the load at its entry answers
+    for every key, with `None`s from the first refused `get` on; an iterator yields a prefix. -/
+theorem C13_layerB_mget_around_shutdown {b0 b : BState} {h : List (BState × Act)} {i : Nat} {ks : List Nat}
+    {iter : Bool} (hrun : RunH b0 h b) (hstart : b0.cl[i]? = some (.start (.mget ks iter)))
+    (hres : i < b0.res.length) (hno : ∀ p ∈ h, ∀ r, p.2 ≠ .issue i r) (hidle : b.cl[i]? = some .idle) :
+    ∃ out, b.res[i]? = some (.values out :: b0.res.getD i []) ∧
+      (∀ j, out[j]? = some none → ∃ k, ks[j]? = some k ∧ (MgetMiss h i j k ∨ MgetRefused h i j k)) ∧
+      (∀ j k, MgetRefused h i j k → ∀ j' v, j ≤ j' → out[j']? ≠ some (some v)) := by
+  have key := mgetInv_run hrun hstart hres hno
+  rw [hidle] at key
+  obtain ⟨out, h1, _, _, h4⟩ := key
+  exact ⟨out, h1, h4.2.1, h4.2.2⟩
 
 /-! ## C13  shutdown — at action granularity
 
@@ -1368,7 +1633,8 @@ theorem reach_runB {cfg : Cfg} {now : Nat} {seeds : List Nat} {clients : Nat} :
     · cases h
 
 /-- what a request issued after the flag is set returns: `Err(CommandSendError)` for the writes, `None` for the reads,
-    no value at all for the multi-key reads (`multi_get` and its iterators) -/
+    no value at all for the multi-key reads (`multi_get` and its iterators; they take two actions to say so:
+    `C13_layerB_mget_refused`) -/
 def refusal : Req → Out
   | .get _ | .getRef _ => .value none
   | .mget _ _ => .values []
@@ -1382,18 +1648,21 @@ theorem finishCall_frame (b : BState) (i : Nat) (out : Out) :
     (finishCall b i out).cl = b.cl.set i .idle ∧ (finishCall b i out).res = b.res.set i (out :: b.res.getD i []) :=
   ⟨rfl, rfl, rfl, rfl, rfl, rfl, rfl, rfl, rfl⟩
 
-/-- C13 (refusal): once the flag is set, the FIRST action of every new request other than `total_weight_used` and
-    `shutdown` finishes the call — with `Err` (put, delete, put_or_update), `None` (get, get_ref) or no values at all
-    (multi_get and the multi-get iterators) — consumes no
-    oracle value and changes nothing else (`finishCall_frame`): no store, admission, queue or lock is touched. -/
+/-- C13 (refusal): once the flag is set, the FIRST action of every new request other than `total_weight_used`,
+    `shutdown` and the multi-key reads finishes the call — with `Err` (put, delete, put_or_update) or `None` (get,
+    get_ref) — consumes no oracle value and changes nothing else (`finishCall_frame`): no store, admission, queue or lock
+    is touched.  STATEMENT CHANGED with the model (every flag load of a multi-key read is an action of its own): the
+    multi-key reads are excluded here (`h3`) — their first action loads nothing; the refusal is their SECOND action:
+    `C13_layerB_mget_refused`. -/
 theorem C13_layerB_refuses {b : BState} {i : Nat} {r : Req} (o : Oracle) (hs : b.g.shutting = true)
-    (hpc : b.cl[i]? = some (.start r)) (h1 : r ≠ .weight) (h2 : r ≠ .shutdown) :
+    (hpc : b.cl[i]? = some (.start r)) (h1 : r ≠ .weight) (h2 : r ≠ .shutdown) (h3 : ∀ ks iter, r ≠ .mget ks iter) :
     clientAct b i o = .ok (finishCall b i (refusal r), o) := by
   unfold clientAct
   simp only [hpc, hs, if_true]
   cases r with
   | weight => exact absurd rfl h1
   | shutdown => exact absurd rfl h2
+  | mget ks iter => exact absurd rfl (h3 ks iter)
   | _ => rfl
 
 theorem refusal_writes (k v : Nat) (w : Int) (ttl : Option Nat) (uv : Option Nat) (uw : Option Int) (rm : Bool) :
@@ -1404,50 +1673,153 @@ theorem refusal_reads (k : Nat) : refusal (.get k) = .value none ∧ refusal (.g
 
 theorem refusal_mget (ks : List Nat) (iter : Bool) : refusal (.mget ks iter) = .values [] := rfl
 
-/-- C13 (a multi-key read that meets the flag): what `mgetNext` does once the flag is set — `multi_get` answers `None`
-    for every key still to come, the iterators stop after the results gathered so far; either way the call returns
-    at once and nothing else is touched (`finishCall_frame`): no further `store.get`, no further access record. -/
-theorem C13_layerB_mget_after_flag {b : BState} (i : Nat) (ks : List Nat) (acc : List (Option Nat)) (iter : Bool)
-    (hs : b.g.shutting = true) :
-    mgetNext b i ks acc iter =
-      finishCall b i (.values (if iter then acc else acc ++ ks.map (fun _ => none))) := by
+/-- C13 (multi-key reads): the FIRST action of a multi-key read looks at nothing — whatever the flag is, the client
+    moves from `client.idle` to its first load of the flag (an iterator over no keys returns at once: `keys.is_empty()`
+    is tested before the flag is loaded); no shared state changes, no oracle value is consumed. -/
+theorem C13_layerB_mget_start {b : BState} {i : Nat} {ks : List Nat} {iter : Bool} (o : Oracle)
+    (hpc : b.cl[i]? = some (.start (.mget ks iter))) :
+    clientAct b i o = .ok (mgetStart b i ks iter, o) ∧ (mgetStart b i ks iter).g = b.g ∧
+    ((iter = true ∧ ks = [] ∧ mgetStart b i ks iter = finishCall b i (.values [])) ∨
+     ((iter = false ∨ ks ≠ []) ∧ mgetStart b i ks iter = setClient b i (.mgetFlag true ks [] iter))) := by
+  refine ⟨?_, mgetStart_g _ _ _ _, mgetStart_spec b i ks iter⟩
+  unfold clientAct
+  simp only [hpc]
+  split <;> rfl
+
+/-- C13 (multi-key reads, the OUTER load — the one of `MultiGetIterator::next`, or the one at the entry of `multi_get`,
+    where nothing has been gathered yet —, flag set): the read ends on the spot with what it has gathered (`multi_get`:
+    nothing; an iterator: the results of the keys done); nothing shared is touched, no oracle value is consumed. -/
+theorem C13_layerB_mget_flag_outer {b : BState} {i : Nat} {ks : List Nat} {acc : List (Option Nat)} {iter : Bool}
+    (o : Oracle) (hs : b.g.shutting = true) (hpc : b.cl[i]? = some (.mgetFlag true ks acc iter)) :
+    clientAct b i o = .ok (finishCall b i (.values acc), o) := by
+  unfold clientAct
+  simp only [hpc]
+  cases ks <;> simp [mgetFlagAct, hs]
+
+/-- C13 (multi-key reads, the load INSIDE `get`, flag set): that `get` answers `None` for its key WITHOUT a lookup — the
+    shared state is exactly as before (no hit, no miss, no access record), no oracle value is consumed — and the read
+    moves on: `multi_get` to the `get` of the next key, an iterator to its next `next()` (or the call returns if this
+    was the last key). -/
+theorem C13_layerB_mget_flag_inner {b : BState} {i k : Nat} {ks : List Nat} {acc : List (Option Nat)} {iter : Bool}
+    (o : Oracle) (hs : b.g.shutting = true) (hpc : b.cl[i]? = some (.mgetFlag false (k :: ks) acc iter)) :
+    clientAct b i o = .ok (mgetNext b i ks (acc ++ [none]) iter, o) ∧
+    (mgetNext b i ks (acc ++ [none]) iter).g = b.g := by
+  refine ⟨?_, mgetNext_g _ _ _ _ _⟩
+  unfold clientAct
+  simp [hpc, mgetFlagAct, hs]
+
+/-- … and with the flag clear a load changes nothing and moves on: the outer load to the load inside `get` (a
+    `multi_get` of no keys returns), the load inside `get` to the lookup. -/
+theorem C13_layerB_mget_flag_clear {b : BState} {i : Nat} {outer : Bool} {ks : List Nat} {acc : List (Option Nat)}
+    {iter : Bool} (o : Oracle) (hs : b.g.shutting = false) (hpc : b.cl[i]? = some (.mgetFlag outer ks acc iter)) :
+    clientAct b i o = .ok (match ks with
+      | [] => finishCall b i (.values acc)
+      | k :: rest => setClient b i (if outer then .mgetFlag false (k :: rest) acc iter else .mgetStore k rest acc iter), o) := by
+  unfold clientAct
+  simp only [hpc]
+  cases ks <;> cases outer <;> simp [mgetFlagAct, hs]
+
+/-- C13 (a multi-key read that meets the flag).  STATEMENT CHANGED with the model: it used to say what `mgetNext` does
+    once the flag is set (one step: `multi_get` pads with `None`s, the iterators stop); `mgetNext` no longer looks at the
+    flag — every load is an action of its own.  At full strength for the new model: a `multi_get` standing before the
+    load inside the `get` of a key, with the flag set, answers `None` for this and every remaining key — ONE ACTION PER
+    KEY (`ks.length` actions of the client; the flag is permanent, so other threads' actions in between change nothing
+    of this: `C13_layerB_mget_around_shutdown`), no lookup, the shared state untouched — and returns all of them; an
+    iterator standing before its own load stops there with the results gathered so far
+    (`C13_layerB_mget_flag_outer`), and one standing before the load inside `get` yields one `None` and then stops. -/
+theorem C13_layerB_mget_after_flag (i : Nat) (o : Oracle) :
+    ∀ (ks : List Nat) (acc : List (Option Nat)) (b : BState), ks ≠ [] → i < b.cl.length → b.g.shutting = true →
+      b.cl[i]? = some (.mgetFlag false ks acc false) →
+      runB b (List.replicate ks.length (.client i, o)) =
+        .ok (finishCall b i (.values (acc ++ ks.map (fun _ => none)))) := by
+  intro ks
+  induction ks with
+  | nil => intro acc b h; exact absurd rfl h
+  | cons k rest ih =>
+    intro acc b _ hi hs hpc
+    have h1 := (C13_layerB_mget_flag_inner o hs hpc).1
+    simp only [List.length_cons, List.replicate_succ, runB, stepB, h1]
+    cases rest with
+    | nil => simp [runB, mgetNext_nil]
+    | cons k' rest' =>
+      rw [mgetNext_cons]
+      have := ih (acc ++ [none]) (setClient b i (.mgetFlag false (k' :: rest') (acc ++ [none]) false)) (by simp)
+        (by simpa [setClient] using hi) hs (by simp [setClient, hi])
+      rw [this]
+      simp [finishCall, setClient, List.set_set]
+
+/-- … the iterator standing before the load inside `get` when the flag is set: one `None`, then its next load ends it. -/
+theorem C13_layerB_mget_iter_after_flag {b : BState} {i k : Nat} {ks : List Nat} {acc : List (Option Nat)} (o : Oracle)
+    (hi : i < b.cl.length) (hs : b.g.shutting = true) (hpc : b.cl[i]? = some (.mgetFlag false (k :: ks) acc true)) :
+    runB b (List.replicate (if ks = [] then 1 else 2) (.client i, o)) =
+      .ok (finishCall b i (.values (acc ++ [none]))) := by
+  have h1 := (C13_layerB_mget_flag_inner o hs hpc).1
   cases ks with
-  | nil => cases iter <;> simp [mgetNext]
-  | cons k rest => simp [mgetNext, hs]
+  | nil => simp [runB, stepB, h1, mgetNext_nil]
+  | cons k' rest' =>
+    have h2 := C13_layerB_mget_flag_outer (b := setClient b i (.mgetFlag true (k' :: rest') (acc ++ [none]) true))
+      (i := i) (ks := k' :: rest') (acc := acc ++ [none]) (iter := true) o hs (by simp [setClient, hi])
+    simp only [List.replicate, runB, stepB, h1, mgetNext_cons, h2, reduceCtorEq, if_false]
+    simp [finishCall, setClient, List.set_set]
 
-/-- … a `multi_get` / multi-get iterator ISSUED after the flag is set is answered with no values by its first action;
-    no store lookup, no statistics, no access record, no oracle value. -/
+/-- … a `multi_get` / multi-get iterator ISSUED after the flag is set is answered with no values; no store lookup, no
+    statistics, no access record, no oracle value.  STATEMENT CHANGED with the model: this used to be ONE action (the
+    first action of the call contained the flag check); now the first action loads nothing (`C13_layerB_mget_start`) and
+    the refusal is the outer load, the second action — TWO actions of the client (one for an iterator over no keys),
+    whatever other threads do in between (`C13_layerB_flag_permanent`; here: run alone). -/
 theorem C13_layerB_mget_refused {b : BState} {i : Nat} {ks : List Nat} {iter : Bool} (o : Oracle)
-    (hs : b.g.shutting = true) (hpc : b.cl[i]? = some (.start (.mget ks iter))) :
-    clientAct b i o = .ok (finishCall b i (.values []), o) :=
-  C13_layerB_refuses o hs hpc (fun h => by cases h) (fun h => by cases h)
+    (hi : i < b.cl.length) (hs : b.g.shutting = true) (hpc : b.cl[i]? = some (.start (.mget ks iter))) :
+    runB b (List.replicate (if iter = true ∧ ks = [] then 1 else 2) (.client i, o)) =
+      .ok (finishCall b i (.values [])) := by
+  obtain ⟨h1, _, hsp⟩ := C13_layerB_mget_start o hpc
+  rcases hsp with ⟨rfl, rfl, e⟩ | ⟨hc, e⟩
+  · simp [runB, stepB, h1, e]
+  · have hif : ¬ (iter = true ∧ ks = []) := by
+      rintro ⟨rfl, rfl⟩; rcases hc with hc | hc
+      · cases hc
+      · exact hc rfl
+    have h2 := C13_layerB_mget_flag_outer (b := setClient b i (.mgetFlag true ks [] iter)) (i := i) (ks := ks)
+      (acc := []) (iter := iter) o hs (by simp [setClient, hi])
+    simp only [hif, if_false, List.replicate, runB, stepB, h1, e, h2]
+    simp [finishCall, setClient, List.set_set]
 
-/-- … a multi-key read standing at a key's `store.get` when the flag is set still does that lookup (its flag check
-    lies behind it); on a miss it returns: `multi_get` with `None` for this and all remaining keys, an iterator with
-    the results so far and this key's `None`. -/
+/-- … a multi-key read standing at a key's `store.get` when the flag is set still does that lookup (the flag load of
+    this `get` lies behind it); on a miss (counted) the read moves on — it returns if this was the last key, else it
+    stands before its next load of the flag, which will find it set (`C13_layerB_mget_flag_outer` /
+    `C13_layerB_mget_after_flag`).  STATEMENT CHANGED with the model: the padding / stopping is no longer part of this
+    action. -/
 theorem C13_layerB_mget_store_after_flag {b b' : BState} {i k : Nat} {ks : List Nat} {acc : List (Option Nat)}
     {iter : Bool} {o o' : Oracle} (hs : b.g.shutting = true) (hpc : b.cl[i]? = some (.mgetStore k ks acc iter))
     (h : clientAct b i o = .ok (b', o')) :
     (∃ e, b.g.store.get? k = some e ∧ e.alive b.g.now = true ∧
         b'.cl = b.cl.set i (.mgetPool k e.value ks acc iter) ∧ b'.res = b.res) ∨
-    b' = finishCall { b with g := { b.g with stats := { b.g.stats with misses := b.g.stats.misses + 1 } } } i
-          (.values (if iter then acc ++ [none] else (acc ++ [none]) ++ ks.map (fun _ => none))) := by
+    (b'.g = { b.g with stats := { b.g.stats with misses := b.g.stats.misses + 1 } } ∧ b'.g.shutting = true ∧
+      match ks with
+      | [] => b' = finishCall { b with g := { b.g with stats := { b.g.stats with misses := b.g.stats.misses + 1 } } } i
+                (.values (acc ++ [none]))
+      | k' :: rest => b' = setClient { b with g := { b.g with stats := { b.g.stats with misses := b.g.stats.misses + 1 } } } i
+                (.mgetFlag iter (k' :: rest) (acc ++ [none]) iter)) := by
   rcases (C02_layerB_mget_store hpc h).1 with hit | ⟨_, rfl⟩
   · exact Or.inl hit
-  · exact Or.inr (C13_layerB_mget_after_flag i ks _ iter hs)
+  · refine Or.inr ⟨by rw [mgetNext_g], by rw [mgetNext_g]; exact hs, ?_⟩
+    cases ks <;> rfl
 
-/-- … and the `pool.add` of a hit that was already counted is still done (one access record), then the call returns:
-    `multi_get` with `None` for all remaining keys, an iterator with the results so far. -/
+/-- … and the `pool.add` of a hit that was already counted is still done (one access record), then the read moves on:
+    it returns if this was the last key, else it stands before its next load of the flag, which will find it set.
+    STATEMENT CHANGED with the model, as for `C13_layerB_mget_store_after_flag`. -/
 theorem C13_layerB_mget_pool_after_flag {b b' : BState} {i k v : Nat} {ks : List Nat} {acc : List (Option Nat)}
     {iter : Bool} {o o' : Oracle} (hs : b.g.shutting = true) (hpc : b.cl[i]? = some (.mgetPool k v ks acc iter))
     (h : clientAct b i o = .ok (b', o')) :
-    ∃ g1, poolAdd b.g (b.g.cfg.hashOf k) o = .ok (g1, o') ∧
-      b' = finishCall { b with g := g1 } i
-            (.values (if iter then acc ++ [some v] else (acc ++ [some v]) ++ ks.map (fun _ => none))) := by
+    ∃ g1, poolAdd b.g (b.g.cfg.hashOf k) o = .ok (g1, o') ∧ b'.g = g1 ∧ b'.g.shutting = true ∧
+      match ks with
+      | [] => b' = finishCall { b with g := g1 } i (.values (acc ++ [some v]))
+      | k' :: rest => b' = setClient { b with g := g1 } i (.mgetFlag iter (k' :: rest) (acc ++ [some v]) iter) := by
   obtain ⟨g1, hp, rfl⟩ := C02_layerB_mget_pool hpc h
-  refine ⟨g1, hp, C13_layerB_mget_after_flag i ks _ iter ?_⟩
-  show g1.shutting = true
-  rw [poolAdd_frame hp]; exact hs
+  refine ⟨g1, hp, by rw [mgetNext_g], ?_, ?_⟩
+  · rw [mgetNext_g]
+    show g1.shutting = true
+    rw [poolAdd_frame hp]; exact hs
+  · cases ks <;> rfl
 
 /-- C13 (the flag is permanent): no action of any thread resets it … -/
 theorem C13_layerB_flag_permanent {b b' : BState} {a : Act} {o o' : Oracle} (h : stepB b a o = .ok (b', o'))
@@ -1728,12 +2100,13 @@ example :
      | _ => false) = true := by decide
 
 /-- Non-vacuity of the multi-key C02 statements (`C02_layerB_mget_store`, `C02_layerB_mget_pool`,
-    `C02_layerB_mread_current`): client 1 runs `multi_get([1, 2])` while only key 1 is stored; after key 1 is done
-    (`store.get` picks up 100, `pool.add` records it) client 0 and the worker put key 2 — IN BETWEEN the two keys of the
-    read — so the read's second `store.get` hits the new entry, and the call returns `[Some(100), Some(200)]`. -/
+    `C02_layerB_mread_current`): client 1 runs `multi_get([1, 2])` while only key 1 is stored (first action, the load at
+    the entry, the load inside `get(1)`, `store.get`); after key 1 is done (`store.get` picks up 100, `pool.add` records
+    it) client 0 and the worker put key 2 — IN BETWEEN the two keys of the read — so the read's second `store.get` hits
+    the new entry, and the call returns `[Some(100), Some(200)]`. -/
 def mgetRun : List (Act × Oracle) :=
   call 0 (.putW 1 100 5 none) 4 ++ workerN 6 ++
-  [(.issue 1 (.mget [1, 2] false), noO), (.client 1, noO), (.client 1, noO)]
+  [(.issue 1 (.mget [1, 2] false), noO), (.client 1, noO), (.client 1, noO), (.client 1, noO), (.client 1, noO)]
 
 example :
     (match runB (BState.init cfgEx 0 [1, 2, 3, 4] 2) mgetRun with
@@ -1744,10 +2117,10 @@ example :
        (match runB b [(.client 1, { pool := [0] })] with
         | .ok b1 =>
           (match b1.cl[1]? with
-           | some (CPc.mgetStore k ks acc iter) => decide (k = 2 ∧ ks = [] ∧ acc = [some 100] ∧ iter = false)
+           | some (CPc.mgetFlag outer ks acc iter) => decide (outer = false ∧ ks = [2] ∧ acc = [some 100] ∧ iter = false)
            | _ => false) &&
           -- another client and the worker move between the two keys of the read
-          (match runB b1 (call 0 (.putW 2 200 3 none) 4 ++ workerN 6 ++ [(.client 1, noO)]) with
+          (match runB b1 (call 0 (.putW 2 200 3 none) 4 ++ workerN 6 ++ [(.client 1, noO), (.client 1, noO)]) with
            | .ok b2 =>
              (match b2.cl[1]? with
               | some (CPc.mgetPool k v ks acc iter) => decide (k = 2 ∧ v = 200 ∧ ks = [] ∧ acc = [some 100] ∧ iter = false)
@@ -1760,7 +2133,7 @@ example :
               | _ => false)
            | _ => false) &&
           -- without the interleaved put the second key is a miss
-          (match runB b1 [(.client 1, noO)] with
+          (match runB b1 [(.client 1, noO), (.client 1, noO)] with
            | .ok b2 =>
              (match b2.res[1]?, b2.cl[1]? with
               | some [Out.values vs], some CPc.idle => decide (vs = [some 100, none])
@@ -1770,22 +2143,23 @@ example :
      | _ => false) = true := by decide
 
 /-- Non-vacuity of `C13_layerB_mget_after_flag` / `C13_layerB_mget_pool_after_flag`: the same read, but client 0's
-    `shutdown()` sets the flag while the read stands at the `pool.add` of key 1: `multi_get` returns
-    `[Some(100), None]` without looking key 2 up, the iterator (`iter = true`) returns `[Some(100)]`; and a read issued
-    after the flag is set returns no values (`C13_layerB_mget_refused`). -/
+    `shutdown()` sets the flag while the read stands at the `pool.add` of key 1: the access record is still made, the
+    load inside `get(2)` finds the flag set: `multi_get` returns `[Some(100), None]` without looking key 2 up and without
+    counting a miss; the iterator (`iter = true`, next example) returns `[Some(100)]`; and a read issued after the flag
+    is set returns no values, in two actions (`C13_layerB_mget_refused`). -/
 example :
     (match runB (BState.init cfgEx 0 [1, 2, 3, 4] 2) (mgetRun ++ call 0 .shutdown 2) with
      | .ok b =>
        b.g.shutting &&
-       (match runB b [(.client 1, { pool := [0] })] with
+       (match runB b [(.client 1, { pool := [0] }), (.client 1, noO)] with
         | .ok b1 =>
           (match b1.res[1]?, b1.cl[1]? with
            | some [Out.values vs], some CPc.idle => decide (vs = [some 100, none])
            | _, _ => false) && decide (b1.g.stats.hits = 1 ∧ b1.g.stats.misses = 0) &&
-          (match runB b1 (call 1 (.mget [1, 2] true) 1) with
-           | .ok b2 => (match b2.res[1]? with
-               | some (Out.values vs :: _) => decide (vs = [])
-               | _ => false)
+          (match runB b1 (call 1 (.mget [1, 2] true) 2) with
+           | .ok b2 => (match b2.res[1]?, b2.cl[1]? with
+               | some (Out.values vs :: _), some CPc.idle => decide (vs = [])
+               | _, _ => false)
            | _ => false)
         | _ => false)
      | _ => false) = true := by decide
@@ -1793,12 +2167,39 @@ example :
 example :
     (match runB (BState.init cfgEx 0 [1, 2, 3, 4] 2)
         (call 0 (.putW 1 100 5 none) 4 ++ workerN 6 ++
-         [(.issue 1 (.mget [1, 2] true), noO), (.client 1, noO), (.client 1, noO)] ++ call 0 .shutdown 2 ++
-         [(.client 1, { pool := [0] })]) with
+         [(.issue 1 (.mget [1, 2] true), noO), (.client 1, noO), (.client 1, noO), (.client 1, noO), (.client 1, noO)] ++
+         call 0 .shutdown 2 ++ [(.client 1, { pool := [0] }), (.client 1, noO)]) with
      | .ok b =>
        (match b.res[1]?, b.cl[1]? with
         | some [Out.values vs], some CPc.idle => decide (vs = [some 100])
         | _, _ => false)
+     | _ => false) = true := by decide
+
+/-- **The `None` without a miss** (the drift that made every flag load an action of its own).  Key 1 ↦ 100 is stored and
+    alive.  Client 1 calls `multi_get_iterator([1]).next()`: first action, then the load of `next()` (flag clear); client
+    0 runs `shutdown()` up to and including its compare-and-swap; client 1's load inside `get` finds the flag set: the
+    iterator yields `[None]` although key 1 is still stored and alive (`shutdown()` has not cleared the store yet), no
+    lookup was made: hits and misses are both 0.  Likewise `multi_get([1, 2])` caught after the load at its entry
+    answers `[None, None]` — full length, no miss.  (The model before the change could only answer `[]` or
+    `[Some(100)]` here.) -/
+example :
+    (match runB (BState.init cfgEx 0 [1, 2, 3, 4] 2)
+        (call 0 (.putW 1 100 5 none) 4 ++ workerN 6 ++
+         [(.issue 1 (.mget [1] true), noO), (.client 1, noO), (.client 1, noO)] ++ call 0 .shutdown 2 ++
+         [(.client 1, noO)]) with
+     | .ok b =>
+       (match b.res[1]?, b.cl[1]?, b.g.store.get? 1 with
+        | some [Out.values vs], some CPc.idle, some e => decide (vs = [none]) && e.alive b.g.now && decide (e.value = 100)
+        | _, _, _ => false) && decide (b.g.stats.hits = 0 ∧ b.g.stats.misses = 0) && b.g.shutting
+     | _ => false) = true ∧
+    (match runB (BState.init cfgEx 0 [1, 2, 3, 4] 2)
+        (call 0 (.putW 1 100 5 none) 4 ++ workerN 6 ++
+         [(.issue 1 (.mget [1, 2] false), noO), (.client 1, noO), (.client 1, noO)] ++ call 0 .shutdown 2 ++
+         [(.client 1, noO), (.client 1, noO)]) with
+     | .ok b =>
+       (match b.res[1]?, b.cl[1]? with
+        | some [Out.values vs], some CPc.idle => decide (vs = [none, none])
+        | _, _ => false) && decide (b.g.stats.hits = 0 ∧ b.g.stats.misses = 0)
      | _ => false) = true := by decide
 
 /-- runs a list of actions and collects the history -/
@@ -1865,8 +2266,9 @@ def mgetB0 : BState :=
 
 /-- client 1 reads key 1; client 0 and the worker put key 2; client 1 reads key 2 -/
 def mgetActs : List (Act × Oracle) :=
-  [(.client 1, noO), (.client 1, noO), (.client 1, { pool := [0] })] ++ call 0 (.putW 2 200 3 none) 4 ++ workerN 6 ++
-  [(.client 1, noO), (.client 1, { pool := [0] })]
+  [(.client 1, noO), (.client 1, noO), (.client 1, noO), (.client 1, noO), (.client 1, { pool := [0] })] ++
+  call 0 (.putW 2 200 3 none) 4 ++ workerN 6 ++
+  [(.client 1, noO), (.client 1, noO), (.client 1, { pool := [0] })]
 
 /-- Non-vacuity of `C02_layerB_mget_current`: an interleaving as a history — client 1's `multi_get([1, 2])`, with
     client 0 and the worker putting key 2 BETWEEN the two keys of the read — satisfies every hypothesis, and the call
@@ -1884,6 +2286,44 @@ theorem C02_layerB_mget_current_witness :
   obtain ⟨h, b, hrun, hidle, hout⟩ := hh
   exact ⟨mgetB0, h, b, runH_histOf _ (.nil _) hrun, rfl, by decide,
     histOf_noIssue 1 _ (fun p hp => by cases hp) (by decide) hrun, hidle, hout⟩
+
+/-- key 1 ↦ 100 is stored, client 1 has issued `multi_get_iterator([1])` -/
+def mgetNoneB0 : BState :=
+  match runB (BState.init cfgEx 0 [1, 2, 3, 4] 2)
+      (call 0 (.putW 1 100 5 none) 4 ++ workerN 6 ++ [(.issue 1 (.mget [1] true), noO)]) with
+  | .ok b => b
+  | .error _ => BState.init cfgEx 0 [] 0
+
+/-- client 1: first action, the load of `next()` (flag clear); client 0: `shutdown()` up to and including the
+    compare-and-swap; client 1: the load inside `get` (flag set) -/
+def mgetNoneActs : List (Act × Oracle) :=
+  [(.client 1, noO), (.client 1, noO)] ++ call 0 .shutdown 2 ++ [(.client 1, noO)]
+
+/-- Non-vacuity of `C13_layerB_mget_around_shutdown`, and the concrete `[None]`-without-miss run: an interleaving as a
+    history — client 1's `multi_get_iterator([1]).next()` with client 0's `shutdown.cas` BETWEEN the load of `next()` and
+    the load inside `get` — satisfies every hypothesis; the call returns `[None]`; hits and misses are what they were
+    when the call was issued (no lookup was made), and key 1 is still stored with its alive value 100. -/
+theorem C13_layerB_mget_none_without_miss_witness :
+    ∃ b0 h b, RunH b0 h b ∧ b0.cl[1]? = some (.start (.mget [1] true)) ∧ 1 < b0.res.length ∧
+      (∀ p ∈ h, ∀ r, p.2 ≠ .issue 1 r) ∧ b.cl[1]? = some .idle ∧
+      (match b.res[1]? with
+       | some [Out.values vs] => decide (vs = [none])
+       | _ => false) = true ∧
+      b.g.stats.hits = b0.g.stats.hits ∧ b.g.stats.misses = b0.g.stats.misses ∧
+      (match b.g.store.get? 1 with
+       | some e => e.alive b.g.now && decide (e.value = 100)
+       | none => false) = true := by
+  have hh : ∃ h b, histOf mgetNoneB0 mgetNoneActs [] = .ok (h, b) ∧ b.cl[1]? = some .idle ∧
+      (match b.res[1]? with
+       | some [Out.values vs] => decide (vs = [none])
+       | _ => false) = true ∧
+      b.g.stats.hits = mgetNoneB0.g.stats.hits ∧ b.g.stats.misses = mgetNoneB0.g.stats.misses ∧
+      (match b.g.store.get? 1 with
+       | some e => e.alive b.g.now && decide (e.value = 100)
+       | none => false) = true := ⟨_, _, rfl, rfl, by decide, by decide, by decide, by decide⟩
+  obtain ⟨h, b, hrun, hidle, hout, hh1, hh2, hst⟩ := hh
+  exact ⟨mgetNoneB0, h, b, runH_histOf _ (.nil _) hrun, rfl, by decide,
+    histOf_noIssue 1 _ (fun p hp => by cases hp) (by decide) hrun, hidle, hout, hh1, hh2, hst⟩
 
 /-- Non-vacuity of `C01_layerB_bound_partial'`, `C05_layerB_at_rest`: a `ReachSafe` state that is at rest. -/
 example : ∃ b, ReachSafe cfgEx 0 [1, 2, 3, 4] 2 b ∧ pendingAdd b = 0 ∧ pendingSub b = 0 :=
